@@ -6,6 +6,7 @@
 -/
 import TPV.Proofs.GeomBoxLemmas
 import TPV.Model.Net
+import TPV.Model.GeomTerm
 import Mathlib.Algebra.Order.Field.Rat
 import Mathlib.Tactic.NormNum
 
@@ -768,6 +769,40 @@ theorem bboxCall_rows_enclose (D : Dom K) (ρs : List (Env K)) (boxes : List (Li
 
 example : bboxCall exMove [[("t", [0])], [("t", [1])]] = some (.inr [[(-1, 2), (-1, 1)], [(0, 3), (1, 3)]]) := by decide +kernel
 example : bboxCall exRot [[]] = some (.inl [(-4/5, 3/5), (0, 7/5)]) := by decide +kernel
+
+
+/-! ### the hypothesis `Agree` holds for the parameter terms of the driver / harness -/
+
+theorem get_append_of_none (v : String) (a b : Env K) (h : a.get v = none) : (a ++ b).get v = b.get v := by
+  simp only [Env.get] at h ⊢
+  rw [List.lookup_append, h]; rfl
+
+theorem PT.eval_append (t : PT K) (pts ρ : Env K) (h : ∀ v ∈ t.vars, pts.get v = none) :
+    t.eval (pts ++ ρ) = t.eval ρ := by
+  induction t with
+  | c k => rfl
+  | var n i => simp only [PT.eval, get_append_of_none n pts ρ (h n (by simp [PT.vars]))]
+  | add a b iha ihb | sub a b iha ihb | mul a b iha ihb =>
+    simp only [PT.vars, List.mem_append] at h
+    simp only [PT.eval, iha (fun v hv => h v (Or.inl hv)), ihb (fun v hv => h v (Or.inr hv))]
+  | neg a iha =>
+    simp only [PT.vars] at h
+    simp only [PT.eval, iha h]
+
+/-- a parameter given by terms (what the harness generates and the driver parses) reads the same values from
+    the parameter row alone as from point ⊕ row whenever the point binds none of the term's variables —
+    the hypothesis `Agree` of `bbox_encloses` is met by every generated case -/
+theorem pfunOf_agree (ts : List (PT K)) (pts ρ : Env K) (h : ∀ t ∈ ts, ∀ v ∈ t.vars, pts.get v = none) :
+    (pfunOf ts).f (pts ++ ρ) = (pfunOf ts).f ρ := by
+  have e : ts.mapM (·.eval (pts ++ ρ)) = ts.mapM (·.eval ρ) := by
+    induction ts with
+    | nil => rfl
+    | cons t ts ih =>
+      simp only [List.mapM_cons, PT.eval_append t pts ρ (h t List.mem_cons_self),
+        ih (fun t' ht' => h t' (List.mem_cons_of_mem _ ht'))]
+  simp only [pfunOf, e]
+
+example : (pfunOf [PT.add (.c (1 : Rat)) (.mul (.c 2) (.var "t" 0))]).f ([("x", [5, 6])] ++ [("t", [3])]) = [7] := by decide +kernel
 
 
 end TPV.Geom
